@@ -110,7 +110,7 @@ def run(ctx: Ctx) -> None:
     rng = random.Random(ctx.seed * 7919 + 7)
     base = [late_browser('c07-late-%d' % k, k) for k in range(ctx.pick(2, 6))]
     base += [churn('c07-churn-%d' % k, k) for k in range(ctx.pick(8, 16))]
-    base += [lf.gen_link(rng, 'c07-%d' % k, ctx.thorough) for k in range(ctx.pick(8, 120))]
+    base += [lf.gen_link(rng, 'c07-%d' % k, ctx.thorough) for k in range(ctx.pick(10, 300))]
     from props import linkmodel as lm
     # binding 1: the design-level model of discovery on a lossy link (one and two losses are tolerated, three are not, and one
     # is not when a single goodbye is sent)
